@@ -117,8 +117,32 @@ def r16a(chk, rid='R16.a'):
         if isinstance(n, ast.Compare) and isinstance(n.ops[0], ast.In) and isinstance(n.comparators[0], ast.Tuple):
             lits |= {const(e) for e in n.comparators[0].elts}
     chk.ob(rid, SEL, 'New._pseudo', ':first-line :first-letter :before :after count as pseudo-elements', {':first-line', ':first-letter', ':before', ':after'} <= lits, str(sorted(map(str, lits))))
-    src = text(p)
-    chk.ob(rid, SEL, 'New._pseudo', 'pseudo names are compared in normalised form', '_tokenvalue(token, normalize=True)' in ast.unparse(p), 'the four names would only be recognised in lower case', shape=True)
+    # the spelling of a pseudo name does not change its type: _pseudo evaluated for several spellings
+    import re as _re
+
+    from sa.absint import Evaluator, Raised, Record
+
+    sm = chk.repo.mod(SEL)
+
+    def norm(x):
+        return _re.sub(r'\\([^0-9a-fA-F\n\r\f])', r'\1', x).lower() if x else x
+
+    for spelling, want in ((':first-line', 'pseudo-element'), (':FIRST-LINE', 'pseudo-element'), (':f\\irst-line', 'pseudo-element'), (':Before', 'pseudo-element'), (':AFTER', 'pseudo-element'), (':first-LETTER', 'pseudo-element'),
+                           (':hover', 'pseudo-class'), (':HOVER', 'pseudo-class'), ('::SELECTION', 'pseudo-element')):
+        appended = []
+        me = Record(context=[''], selector=Record(_tokenvalue=lambda tok, normalize=False: norm(tok[1]) if normalize else tok[1], _type=lambda tok: tok[0]))
+        me.append = lambda seq, val, typ=None, token=None: appended.append((val, typ))
+        # the token as Selector._prepare_tokens (evaluated as well) hands it over: ':' [':'] IDENT combined
+        colons = '::' if spelling.startswith('::') else ':'
+        raw = [('CHAR', ':', 1, 1)] * len(colons) + [('IDENT', spelling[len(colons):], 1, 1 + len(colons))]
+        sel = Record(_tokenvalue=lambda tok, normalize=False: norm(tok[1]) if normalize else tok[1], _type=lambda tok: tok[0], _normalize=norm, _prods=Record(IDENT='IDENT'))
+        prepared = Evaluator(sm.get('Selector._prepare_tokens'), module=sm, cls='Selector').run(self=sel, tokenizer=iter(raw))
+        prepared = list(prepared) if not isinstance(prepared, Raised) else prepared
+        if isinstance(prepared, Raised) or len(prepared) != 1:
+            raise AnalysisError(f'Selector._prepare_tokens: {prepared!r} for {spelling!r}')
+        res = Evaluator(p, module=sm, cls='New').run(self=me, expected='pseudo negation', seq=[], token=prepared[0])
+        ok = not isinstance(res, Raised) and len(appended) == 1 and appended[0][1] == want
+        chk.ob(rid, SEL, 'New._pseudo', f'{spelling} is a {want} (by evaluation of _prepare_tokens and _pseudo)', ok, f'appended {appended}, {res!r}: the specificity of a selector would depend on how the name is spelled')
 
 
 def produced_types(repo):
@@ -232,17 +256,30 @@ def r16c(chk, rid='R16.c'):
 
 def r16d(chk, rid='R16.d'):
     chk.rule(rid, 'list semantics: appendSelector de-duplicates by serialised text before appending (move to the end); the all-or-nothing parse marks the list ill-formed when any member is; a selector with an undeclared prefix is reported as NamespaceErr and stops the append')
-    fn = chk.repo.fn(SELLIST, 'SelectorList.appendSelector')
-    src = ast.unparse(fn)
-    g = cfgmod.CFG(fn)
-    app = [n for n in g.nodes if any(text(c.func) in ('self.seq.append', 'newseq.append') for c in cfgmod.calls_at(n))]
-    chk.ob(rid, SELLIST, 'SelectorList.appendSelector', 'appends the new selector', bool(app), 'no append')
-    dedupe = 'selectorText' in src and ('!=' in src or 'not in' in src or '==' in src)
-    chk.ob(rid, SELLIST, 'SelectorList.appendSelector', 'removes an equal selector (compared by selectorText) first', dedupe, 'duplicates would accumulate', shape=True)
-    loops = [n for n in ast.walk(fn) if isinstance(n, ast.For) and 'selectorText' in ast.unparse(n)]
-    full = bool(loops) and not any(isinstance(x, ast.Break) for l in loops for x in ast.walk(l))
-    chk.ob(rid, SELLIST, 'SelectorList.appendSelector', 'every member is compared (the scan does not stop at the first equal one)', full,
-           'a list that already holds the selector twice keeps one copy: appending does not restore the set property')
+    from sa.absint import Evaluator, Obj, Raised, Record
+
+    lm = chk.repo.mod(SELLIST)
+    fn = lm.get('SelectorList.appendSelector')
+
+    class SelM(Record):
+        pass
+
+    n = 0
+    bad = []
+    for start, new in ((['a', 'b'], 'c'), (['a', 'b', 'c'], 'a'), (['a', 'b', 'a', 'c'], 'a'), ([], 'x'), (['a'], 'a'), (['a', 'b'], None)):
+        seq = [SelM(selectorText=t, tag=i) for i, t in enumerate(start)]
+        me = Obj(seq=seq, _checkReadonly=lambda: None, _splitNamespacesOff=lambda t: (t, {}), parentRule=Obj(parentStyleSheet=Obj(namespaces={})), _namespaces={})
+        prepared = SelM(selectorText=new, tag='new') if new is not None else None
+        setattr(me, '__prepareset', lambda sel, ns=None, prepared=prepared: prepared)
+        res = Evaluator(fn, module=lm, cls='SelectorList').run(self=me, newSelector=new or 'invalid')
+        n += 1
+        got = [x.selectorText for x in me.seq]
+        want = [t for t in start if t != new] + ([new] if new is not None else [])
+        if new is None:
+            want = start
+        if isinstance(res, Raised) or got != want or (new is not None and res is not prepared):
+            bad.append(f'{start} + {new!r}: {got}, prescribed {want}' + (f' ({res!r})' if isinstance(res, Raised) else ''))
+    chk.ob(rid, SELLIST, 'SelectorList.appendSelector', f'all {n} cases: every selector with the same text is removed and the new one is appended at the end; a selector that cannot be prepared changes nothing (by evaluation)', not bad, ' | '.join(bad[:2]))
     fn2 = chk.repo.fn(SELLIST, 'SelectorList._setSelectorText')
     bad = [n for n in ast.walk(fn2) if isinstance(n, ast.If) and 'selector.wellformed' in text(n.test)]
     ok = bool(bad) and any(isinstance(x, ast.Assign) and text(x.targets[0]) == 'wellformed' and const(x.value) is False for b in bad for x in ast.walk(ast.Module(body=b.orelse, type_ignores=[])))
